@@ -63,7 +63,7 @@ pub fn run_one(b: u64, arrived: &[(i64, i64)], sync: bool, seed: u64) -> Value {
                 let r = d.get_mutable_most_recent(&pk, salt3.as_deref()).await;
                 match r {
                     Some(it) => json!([it.seq(), it.value().get(1).cloned().unwrap_or(255)]),
-                    None => json!([-1, -1]),
+                    None => json!([0, 0]),
                 }
             })
         });
@@ -98,7 +98,7 @@ pub fn run_one(b: u64, arrived: &[(i64, i64)], sync: bool, seed: u64) -> Value {
         if h.is_finished() {
             result = match h.join() {
                 Ok(Some(it)) => json!([it.seq(), it.value().get(1).cloned().unwrap_or(255)]),
-                Ok(None) => json!([-1, -1]),
+                Ok(None) => json!([0, 0]),
                 Err(_) => json!([-2, -2]),
             };
         } else {
